@@ -39,7 +39,7 @@ def _us(n):
 
 _STR_US = {'verif_concretize.0': 20, 'll_strlen.0': 12, 'll_memcmp.0': 12, 'll_memcpy.0': 12, 'll_memmove.0': 12, 'll_memchr.0': 12}
 
-_TUFLAGS = ['-mllvm', '-inline-threshold=0']
+_TUFLAGS = ['-fno-inline']
 _GEN = '_ZL3genP15CPPPreprocessoriij'
 
 
@@ -96,4 +96,4 @@ PROPERTY_INFO = {'C09': {'level': 'model_checking',
 
 NOT_APPLICABLE = {}
 HARNESSES.append(dict(_cond('t', 0), id='c09_tmp', src='/var/tmp/a_c09c17/t5.cxx', tiers=('none',), models=['strdisjunct.c', '/var/tmp/a_c09c17/detect.c']))
-HARNESSES[-1]['bounds'] = {'quick': dict(HARNESSES[-1]['bounds']['quick'], unwind=6, cap=4, defs={'NLINES': 3, 'T5KIND': 'K_DEFINE', 'T5N': 1}, unwindset={k: v for k, v in HARNESSES[-1]['bounds']['quick']['unwindset'].items() if k != _GEN})}
+HARNESSES[-1]['bounds'] = {'quick': dict(HARNESSES[-1]['bounds']['quick'], unwind=6, cap=4, unwindset={k: v for k, v in HARNESSES[-1]['bounds']['quick']['unwindset'].items() if k != _GEN})}
